@@ -22,21 +22,26 @@ Runs == ndJsonDeserialize(IOEnv.CONF)
 VARIABLES l, ti
 cvars == <<vars, l, ti>>
 
-Cmp == {"out", "h_start", "h_end", "ctl", "ctl_done", "conn_done"}
+Cmp == {"out", "h_start", "h_end", "ctl", "ctl_done", "conn_done", "h_drop"}
 \* h_end.r echoes the code the command armed, h_start.r the PUBLISH flags (input data, judged by ProtoMon)
 \* x: only the topic a publish handler was given is compared
-P(ev) == [e |-> ev.e, k |-> ev.k, s |-> ev.s, id |-> ev.id, q |-> ev.q, r |-> IF ev.e \in {"h_end", "h_start"} THEN 0 ELSE ev.r,
+P(ev) == [e |-> ev.e, k |-> ev.k, s |-> ev.s, id |-> ev.id, q |-> ev.q, r |-> IF ev.e \in {"h_end", "h_start", "ctl"} THEN 0 ELSE ev.r,
           x |-> IF ev.e = "h_start" /\ ev.k = "pub" THEN ev.x ELSE ""]
 \* what the endpoint writes to the wire is observed on the peer side at the next quiescence, so the position of
 \* `out` events relative to the other events of one command is an artefact: both sides list the other events
 \* first, then the `out` events (each group in order)
 Map(sel) == [i \in 1..Len(sel) |-> P(sel[i])]
-Proj(evs) == Map(SelectSeq(evs, LAMBDA ev : ev.e \in Cmp /\ ev.e # "out")) \o Map(SelectSeq(evs, LAMBDA ev : ev.e = "out"))
+\* (the same holds for the end of the connection task and the dropping of cancelled handlers, whose mutual order
+\*  depends on which task is dropped first: listed after the rest, handler drops in ascending order)
+Late == {"out", "conn_done", "h_drop"}
+Proj(evs) == Map(SelectSeq(evs, LAMBDA ev : ev.e \in Cmp /\ ev.e \notin Late))
+             \o Map(SelectSeq(evs, LAMBDA ev : ev.e = "conn_done")) \o Map(SelectSeq(evs, LAMBDA ev : ev.e = "h_drop"))
+             \o Map(SelectSeq(evs, LAMBDA ev : ev.e = "out"))
 
 CInit == Init /\ l = 1 /\ ti = 1
 Reset == st' = Init0 /\ mon' = InitMon /\ hist' = << >> /\ pred' = << >>
 
-TokAct(t) == IF t.a = "in" THEN In(t.pk, t.arm)
+TokAct(t) == IF t.a = "x" THEN (\E k \in Ends : EndTok(st, k) = t.o /\ End(k)) ELSE IF t.a = "in" THEN In(t.pk, t.arm)
           ELSE \E gi \in 1..Len(st.gates) : st.gates[gi].h = t.h /\ Complete(gi, t.o)
 
 StepTok ==
